@@ -153,7 +153,11 @@ def c16_cases(tier, rng):
 
 def c18_cases(tier, rng):
     cases = []
-    verdicts = [b"250 2.0.0 delivered\r\n", b"550 5.1.1 no such user\r\n", b"452-4.2.2 over\r\n452 4.2.2 quota\r\n"]
+    # per-recipient verdicts: any code is that recipient's own status — 421 (what this library's server sends for every remaining
+    # recipient when LMTPData panics), 251/252, a 5xx without enhanced code, a 2xx other than 250
+    verdicts = [b"250 2.0.0 delivered\r\n", b"550 5.1.1 no such user\r\n", b"452-4.2.2 over\r\n452 4.2.2 quota\r\n",
+                b"421 4.0.0 Internal server error\r\n", b"554 rejected\r\n", b"250 2.0.0 delivered\r\n", b"451 4.3.0 try later\r\n",
+                b"421 4.4.2 closing\r\n", b"252 2.0.0 accepted\r\n"]
     for ntx in (1, 2, 3):
         for _ in range(150 if tier == "quick" else 1500):
             exts = rng.choice([[b"8BITMIME"], [], [b"PIPELINING", b"SIZE 100"], [b"8BITMIME", b"DSN"]])
